@@ -279,6 +279,39 @@ pub fn cases(ctx: &Ctx) -> Vec<WCase> {
         }
         out.push(wcase(format!("nodrain-{i}"), s));
     }
+    // D2. never drained, queue already full of interruptions, and then a remote DIES: the Disconnected event is the last
+    // thing a poll handles; half of the survivors only poll (a paused game) across the timeout, the others poll 1-4 times per
+    // tick, so the queue is read right after bare polls too (round-7 seed C12)
+    for i in 0..ctx.n(80, 2500) {
+        let mut rr = r.fork(0x4400_0000 + i as u64);
+        let mut s = Scn::base(rr.next());
+        // (two peers only: with three, the survivors of a death run into the open finding F3 of C10)
+        s.peers = rr.pick(&[vec![vec![0], vec![1]], vec![vec![0, 2], vec![1]], vec![vec![0], vec![1, 2]]]);
+        s.mp = rr.pick(&[2usize, 8]);
+        s.frames = 3000;
+        s.notify_ms = 100;
+        s.timeout_ms = rr.pick(&[600u64, 1500]);
+        let mut outs = vec![];
+        let mut t = 1200;
+        while t < 200_000 {
+            outs.push(Outage { from_ms: t, to_ms: t + 150, kinds: 0 });
+            t += 400;
+        }
+        s.link = Link { drop: 0.0, dup: 0.0, base_ms: 5, jitter_ms: 0, outages: outs, faults: vec![], stragglers: vec![] };
+        let at = rr.range(23_000, 30_000);
+        s.kill = Some(Kill { node: 1, at_ms: at, pdrop: rr.pick(&[0.0, 1.0]) });
+        for k in 0..s.peers.len() {
+            let mut c = NodeCfg::default();
+            c.drain = false;
+            c.polls_per_tick = rr.pick(&[1u64, 2, 4]);
+            if k == 0 && rr.chance(0.5) {
+                c.poll_only.push((at + rr.range(0, s.timeout_ms), at + s.timeout_ms + rr.range(200, 1500)));
+            }
+            s.nodes.push(c);
+        }
+        s.start = Start::AllRunning;
+        out.push(wcase(format!("nodrain-death-{i}"), s));
+    }
     out
 }
 
@@ -403,7 +436,7 @@ pub fn run_case(c: &WCase) -> Outcome {
         let st = w.net.borrow().stats.clone();
         out.count("stray_replies_injected", st.stray_replies_injected);
         out.count("sync_request_retransmissions", st.sync_retransmissions);
-        let nodrain = fam == "nodrain";
+        let nodrain = fam == "nodrain" || fam == "nodrain-death";
         // grammar on every session's event stream
         let mut counts = BTreeMap::new();
         for n in &w.nodes {
@@ -493,7 +526,7 @@ pub fn check(ctx: &Ctx) -> i32 {
     let res = par_run(ctx, &cs, &|c: &WCase| c.id.clone(), &run_case);
     let meta = Meta {
         level: "exploration",
-        rule: "four families. (A) handshakes of 1-3 remotes and spectators over links with loss up to 50 %, duplication, reordering jitter and injected stray replies (exact duplicate, corrupted nonce, foreign address after every genuine SyncReply), advance_frame called from the very start: Running must coincide at every tick with 'every remote has 5 matched request/reply round trips' as counted by the harness from the packet log, advance_frame must return NotSynchronized exactly while not Running, the handshake must complete. (B) scripted silences on a player or spectator link with lengths on a 5 ms grid around the notify delay and the timeout (notify {100,300,500} ms, timeout notify+{200,1500} ms): per silence, NetworkInterrupted iff longer than notify (+one tick of slack) at the right time and with the right remaining-time field, NetworkResumed with the first packet after it, Disconnected iff longer than the timeout, nothing after Disconnected. (C) sessions that only poll (cadence 1..100 ms, latency 0..100 ms, default timeouts) for 60 s: no NetworkInterrupted. (E) a stalled application: one side does not poll across both the notify delay and the timeout of a peer that died, so both thresholds are crossed in a single poll (the automaton must still see NetworkInterrupted before Disconnected and nothing after); family (B) also includes notify delays equal to or above the timeout. (F) a spectator that is silent long enough for the host to pile up 128 unacknowledged frames before the (long) timeout, is dropped because of the overflow and then comes back: nothing more may be reported for its address. (D) sessions whose user never drains events for 3000-10000 frames with an interruption every 400 ms, speed skew (WaitRecommendation) and diverging games under detection interval 1 (DesyncDetected): queue length <= 100 at every API boundary (hook) and in events(). Every event stream of every family is run through the per-address lifecycle automaton. Non-trivial: (A) >=1 lost and >=1 duplicated/stray handshake packet, (B) >=1 Interrupted/Resumed pair, (C) 60 s completed, (D) the queue reached 100, (E) both events were raised by the same poll. Distinct: configuration + trace hash.".into(),
+        rule: "four families. (A) handshakes of 1-3 remotes and spectators over links with loss up to 50 %, duplication, reordering jitter and injected stray replies (exact duplicate, corrupted nonce, foreign address after every genuine SyncReply), advance_frame called from the very start: Running must coincide at every tick with 'every remote has 5 matched request/reply round trips' as counted by the harness from the packet log, advance_frame must return NotSynchronized exactly while not Running, the handshake must complete. (B) scripted silences on a player or spectator link with lengths on a 5 ms grid around the notify delay and the timeout (notify {100,300,500} ms, timeout notify+{200,1500} ms): per silence, NetworkInterrupted iff longer than notify (+one tick of slack) at the right time and with the right remaining-time field, NetworkResumed with the first packet after it, Disconnected iff longer than the timeout, nothing after Disconnected. (C) sessions that only poll (cadence 1..100 ms, latency 0..100 ms, default timeouts) for 60 s: no NetworkInterrupted. (E) a stalled application: one side does not poll across both the notify delay and the timeout of a peer that died, so both thresholds are crossed in a single poll (the automaton must still see NetworkInterrupted before Disconnected and nothing after); family (B) also includes notify delays equal to or above the timeout. (F) a spectator that is silent long enough for the host to pile up 128 unacknowledged frames before the (long) timeout, is dropped because of the overflow and then comes back: nothing more may be reported for its address. (D2) like D, and once the queue is full a remote dies (timeout 600/1500 ms) while the survivor polls 1-4 times per tick or only polls across the timeout: the Disconnected event must not push the queue past 100 either. (D) sessions whose user never drains events for 3000-10000 frames with an interruption every 400 ms, speed skew (WaitRecommendation) and diverging games under detection interval 1 (DesyncDetected): queue length <= 100 at every API boundary (hook) and in events(). Every event stream of every family is run through the per-address lifecycle automaton. Non-trivial: (A) >=1 lost and >=1 duplicated/stray handshake packet, (B) >=1 Interrupted/Resumed pair, (C) 60 s completed, (D) the queue reached 100, (E) both events were raised by the same poll. Distinct: configuration + trace hash.".into(),
         assumptions: std_assumptions(),
         floor_nontrivial: if ctx.quick() { 300 } else { 8000 },
         exhaustive: None,
